@@ -109,6 +109,24 @@ class ConcatList(SList):
         self.all_expr = all(getattr(p_, "all_expr", False) for p_ in self.parts)
 
 
+class ReplacedList(SList):
+    """A symbolic-length list with its j-th entry replaced by a known object (0 <= j < length)."""
+    def __init__(self, base, j, new):
+        self.base, self.j, self.new = base, j, new
+
+        def elem(u):
+            if z3.is_int_value(u) or True:
+                a = base.elem(u)
+                if isinstance(a, IndexedItem) and isinstance(new, IndexedItem):
+                    return IndexedItem(z3.If(u == j, new.idx, a.idx))
+                if is_num(a) and is_num(new):
+                    return SNum(z3.If(u == j, real_term(new), real_term(a)), False)
+            from .interp import Unsupported
+            raise Unsupported("G-mode: element of a list with a replaced object entry at a symbolic index")
+        SList.__init__(self, base.length, elem, f"{base.tag}[{j}:=new]")
+        self.all_expr = getattr(base, "all_expr", False)
+
+
 class StarArgs:
     """`*slist` in a call."""
     def __init__(self, slist):
